@@ -4,6 +4,7 @@ Property theorems only.
 -/
 import Helm.Model.Storage
 import Helm.Lemmas.Storage
+import Helm.Lemmas.StorageMem
 
 namespace Helm.Props.C10
 open Helm.Storage
@@ -105,5 +106,31 @@ theorem mem_create_get (m : Mem) (k : String) (r : Rel) (hk : memKeyOk k = true)
       | some x => simp [h] at hfresh
     simp [hnone, List.find?_append]
   simp [this]
+
+/-! ## 3. The memory driver refines the key-value map, for keys that parse
+
+`MemOpOK`: the key of a get/delete has exactly one ".v" after the prefix, followed by an integer,
+and the key of a create/update names the release it is given with.  Every key storage.go makes
+for a release whose name has no ".v" in it meets this (the names that do not are the known
+finding above). -/
+
+/-- One call on any reachable state of the memory driver: same answer as the map (lists up to
+order), and the states keep corresponding. -/
+theorem memory_step (m : Mem) (sp : Spec) (op : Op) (hinv : MInv m) (hrel : (absMem m).Perm sp)
+    (hop : MemOpOK op) :
+    MInv (memStep m op).1 ∧ (absMem (memStep m op).1).Perm (specStep sp op).1 ∧
+    MOutRel (memStep m op).2 (specStep sp op).2 :=
+  mem_step_refines m sp op hinv hrel hop
+
+/-- Any sequence of such calls on an initially empty memory driver, of any length: the answers
+are, step by step, those of a simple map from key to release. -/
+theorem memory_refines_map (ops : List Op) (hok : ∀ op ∈ ops, MemOpOK op) :
+    MOutsRel (run memStep [] ops).2 (run specStep [] ops).2 :=
+  (mem_run_refines ops [] [] MInv_empty (List.Perm.refl _) hok).2.2
+
+/-- premises satisfiable: a key as storage.go makes it for an ordinary release name -/
+example : MemOpOK (.create (makeKey "my-app" 12) ⟨"my-app", 12, "deployed", [], ""⟩) ∧
+    MemOpOK (.get (makeKey "my-app" 12)) := by
+  simp only [MemOpOK]; decide
 
 end Helm.Props.C10
